@@ -228,7 +228,8 @@ def run_cfg(ctx, p, cfg):
         c07.rule_shift_order(ctx, p, cfg, "E5")
         c07.rule_archive_writes_surface(ctx, p, cfg, "E6")   # a failed archive write reports an error before the source is removed
         c07.rule_final_step(ctx, p, cfg, "E5c")   # the rolled file is taken away last, into pattern(base): a failed shift leaves it at the active path, not under a name nobody manages
-        c07.rule_staging_name(ctx, p, cfg, "E7")   # a roll that only staged its file does not overwrite the file an earlier roll staged
+        c07.rule_staging_name(ctx, p, cfg, "E7")
+        c07.rule_one_rotation_at_a_time(ctx, p, cfg, "E8")   # "resumes rotating": a roll that fails after it lowered the busy flag must not leave it lowered (the next roll would wait for ever)   # a roll that only staged its file does not overwrite the file an earlier roll staged
         c07.rule_move_file(ctx, p, cfg, "E5b")   # a step that fails leaves its source in place: the source is removed only after a successful copy
 
 
